@@ -248,6 +248,11 @@ package grpctunnel
 //@ funcfield (*tunnelServer).isClosing ()
 //@   assigns nothing
 
+// An errHolder is immutable and always carries a cause.
+//@ type errHolder
+//@   field error immutable
+//@   invariant wf : error != nil
+
 //@ type tunnelServerStream
 //@   field ctx, cancel, svr, streamID, method, stream, isClientStream, isServerStream, sender, receiver immutable
 //@   field halfClosed token
@@ -837,3 +842,106 @@ package grpctunnel
 //@   assigns st.done, cancel(st.cancel), rclosed(st.receiver), chan(st.doneSignal), chan(st.gotHeadersSignal), elems(st.trailersTargets), elems(st.headersTargets)
 //@   effects nilrecv-ok, nosend, nowait
 //@   nopanic[C09]
+
+// ----- client stream: caller-facing operations --------------------------------------
+
+//@ func (*tunnelClientStream).Header
+//@   at return#1
+//@     assert[C02,C15] @observed1 isClosed(st.gotHeadersSignal)
+//@   at return#2
+//@     assert[C02,C15] @observed2 isClosed(st.gotHeadersSignal)
+//@   at return#3
+//@     assert[C02,C15] @observed3 isClosed(st.gotHeadersSignal)
+//@   at return#4
+//@     assert[C04] @ctxended isClosed(doneOf(st.ctx))
+//@   ensures[C04] @cancellable count("blocking") <= 1
+//@   assigns nothing
+//@   nopanic[C09]
+
+//@ func (*tunnelClientStream).Trailer
+//@   at return#1
+//@     assert[C02,C15] @observed isClosed(st.doneSignal)
+//@   at return#2
+//@     assert[C02,C07] @nilbefore result == nil
+//@   assigns nothing
+//@   nopanic[C09]
+
+//@ func (*tunnelClientStream).CloseSend
+//@   locks st.writeMu
+//@   at call Send#1
+//@     assert[C13] @halfcloseframe arg0.StreamId == st.streamID && arg0.Frame is *tunnelpb.ClientToServer_HalfClose
+//@     assert[C13] @once !old(st.halfClosed) && st.halfClosed
+//@   ensures[C13] @atmostone count("carrierSend") <= 1
+//@   ensures[C13] @again old(st.halfClosed) ==> count("carrierSend") == 0
+//@   assigns nothing
+//@   nopanic[C09]
+
+//@ func (*tunnelClientStream).SendMsg
+//@   locks st.writeMu
+//@   assigns nothing
+//@   at call send#1
+//@     assert[C01]     @marshalled sameSlice(arg0, b)
+//@     assert[C16]     @count      st.isClientStream || old(st.numSent) == 0
+//@     assert[C16,C13] @counted    st.numSent == old(st.numSent) + 1
+//@   ensures[C16] @guard !st.isClientStream && old(st.numSent) == 1 ==> result != nil && count("call:send") == 0 && st.numSent == old(st.numSent)
+
+//@ func (*tunnelClientStream).readMsgLocked
+//@   requires held(st.readMu)
+//@   ghost k ghostint = 0
+//@   ghost acc ghostint = 0
+//@   ghost envSize uint32 = 0
+//@   ghost dqOK bool = true
+//@   at aftercall dequeue#1
+//@     ghost dqOK = result1
+//@     ghost k = k + ite(result1, 1, 0)
+//@     ghost envSize = ite(result1 && result0 is *tunnelpb.ServerToClient_ResponseMessage, as(result0, *tunnelpb.ServerToClient_ResponseMessage).ResponseMessage.Size, envSize)
+//@     ghost acc = ite(result1 && result0 is *tunnelpb.ServerToClient_ResponseMessage, content(as(result0, *tunnelpb.ServerToClient_ResponseMessage).ResponseMessage.Data), ite(result1 && result0 is *tunnelpb.ServerToClient_MoreResponseData, cat(acc, content(as(result0, *tunnelpb.ServerToClient_MoreResponseData).MoreResponseData)), acc))
+//@   loop 1 invariant[C01,C09,C16] @assembling dqOK && ((msgLen == -1 && k == 0) || (k >= 1 && msgLen == int(envSize) && content(b) == acc && len(b) < msgLen))
+//@   loop 1 invariant[C01,C16]     @readerr    st.readErr == nil
+//@   ensures[C01,C16] @sticky    old(st.readErr) != nil ==> err == old(st.readErr) && ok && data == nil && count("call:dequeue") == 0 && st.readErr == old(st.readErr)
+//@   ensures[C01,C07] @errnodata err != nil ==> data == nil
+//@   ensures[C09,C16] @badframe  !ok ==> err != nil && isStatus(err, codes.Internal)
+//@   ensures[C01]     @message   err == nil ==> k >= 1 && len(data) == int(envSize) && content(data) == acc
+//@   ensures[C01,C16] @remember  err != nil ==> st.readErr == err
+//@   ensures[C01]     @clean     err == nil ==> st.readErr == nil
+//@   ensures[C01,C07] @endcause  !dqOK ==> err != nil && ok
+//@   assigns st.readErr
+//@   nopanic[C09]
+
+//@ func (*tunnelClientStream).readMsg
+//@   locks st.readMu
+//@   ghost e1 error = nil
+//@   ghost d1 []byte = nil
+//@   ghost e2 error = nil
+//@   ghost ok2 bool = false
+//@   at aftercall readMsgLocked#1
+//@     ghost e1 = result2
+//@     ghost d1 = result0
+//@   at aftercall readMsgLocked#2
+//@     ghost e2 = result2
+//@     ghost ok2 = result1
+//@   at call readMsgLocked#2
+//@     assert[C16] @lookahead e1 == nil && !st.isServerStream
+//@   ensures[C01,C16] @first     err == nil ==> e1 == nil && sameSlice(data, d1)
+//@   ensures[C16]     @single    err == nil && !st.isServerStream ==> count("call:readMsgLocked") == 2 && e2 == io.EOF && ok2
+//@   ensures[C16]     @second    !st.isServerStream && e1 == nil && e2 == nil ==> isStatus(err, codes.Internal) && !ok && data == nil && st.readErr == err
+//@   ensures[C16]     @streaming st.isServerStream ==> count("call:readMsgLocked") == 1
+//@   ensures[C01]     @errnodata err != nil ==> data == nil
+//@   assigns nothing
+//@   nopanic[C09]
+
+//@ func (*tunnelClientStream).RecvMsg
+//@   ghost rerr error = nil
+//@   ghost rok bool = true
+//@   ghost rdata []byte = nil
+//@   at aftercall readMsg#1
+//@     ghost rerr = result2
+//@     ghost rok = result1
+//@     ghost rdata = result0
+//@   at call cancelStream#1
+//@     assert[C16,C09] @protocol !rok && arg1 == rerr && rerr != nil
+//@   at call Unmarshal#1
+//@     assert[C01,C16] @nofab rerr == nil && sameSlice(arg0, rdata)
+//@   ensures[C01,C16] @err rerr != nil ==> result == rerr && count("unmarshal") == 0
+//@   locks st.readMu, st.ch.mu, st.metaMu
+//@   assigns st.done, cancel(st.cancel), rclosed(st.receiver), rcancelled(st.receiver), chan(st.doneSignal), chan(st.gotHeadersSignal), elems(st.trailersTargets)
